@@ -5,7 +5,7 @@ from verif.core import Infra
 
 META = dict(
     technique="TLA+ model of parseUintBuf's accumulator loop / readHexInt / writeHexInt on a W-bit two's-complement word, model-checked exhaustively by TLC for W in {6,8,10,12(,16)} (every input string, every accumulator value: guard <=> overflow); digit-string reference for 64/32-bit widths (validated against the integer model by the same TLC runs) emits boundary vectors replayed into ParseUint/parseUintBuf/AppendUint/readHexInt/writeHexInt/writeChunk (B3)",
-    design_ref="DESIGN.md §4 C30 (a)+(c); (b) optional Apalache lemma attempted under timeout in the thorough tier",
+    design_ref="DESIGN.md §4 C30 (a)+(c); (b) Apalache lemma for W=64/32 under timeout 120 (extra evidence, never a verdict)",
     text="IntCodec.tla is a state machine with one action per loop iteration of parseUintBuf including the guard i>=SafeDigits /\\ (v>MaxDiv10 \\/ vNew<0) with wrap-around arithmetic; invariants: the accumulator always equals the value of the digits read, ParseUint accepts exactly the fitting decimal strings and returns their value, -1 on error, and agrees field by field with the digit-string reference RefParseBuf; ASSUMEd lemmas over all accumulator values: guard <=> overflow, each half of the guard alone is insufficient, hex read/write loops never overflow and round-trip below 16^MaxHexChars. IntCodecGen.tla computes MaxInt=2^(w-1)-1 etc. by digit arithmetic for w=64/32 and emits MaxInt+-d*10^p, the wrap points k*2^63/10 and k*2^64/10 +-d (+ one digit), all lengths 1..25, leading zeros, embedded non-digits, hex strings around maxHexIntChars with every terminator class. The harness compares the package constants with the spec's (the 32-bit ones via go/types under GOARCH=386) and runs dense/random round trips.",
     note="Trusted: TLC, the digit arithmetic of IntCodecRef (meta-checked against integer arithmetic for small W and against strconv at run time), Go toolchain. 32-bit: the sandbox cannot execute GOARCH=386 binaries, so only the constants of the 32-bit build are bound (go/types evaluation); the loop itself is width-generic and covered by the parametric model. Chunk sizes >= 16^maxHexIntChars (2^60) are written with 16 digits and rejected on read (never mis-read); they cannot occur as lengths of in-memory slices.",
 )
@@ -14,16 +14,17 @@ APALACHE = "/opt/veriftools/apalache/bin/apalache-mc"
 
 
 def _apalache(ctx):
-    """Optional: the 64-bit guard lemma as a pure arithmetic invariant (DESIGN C30 (b))."""
+    """Optional (DESIGN C30 (b)): the guard lemma at W=64 and W=32 as a pure arithmetic
+    invariant for Apalache, under `timeout 120`. Never affects the verdict."""
     spec = os.path.join(os.path.dirname(os.path.dirname(os.path.abspath(__file__))), "specs", "data", "IntCodecLemma.tla")
     if not (os.path.exists(APALACHE) and os.path.exists(spec)):
-        return "not attempted"
+        return "not attempted (apalache not installed)"
     d = ctx.sub("apalache")
-    res = {}
-    for inv, expect_ok in (("Lemma", True), ("SignOnlyLemma", False)):
+    invs = [("Lemma", True)] if ctx.quick else [("Lemma", True), ("SignOnlyLemma", False), ("DivOnlyLemma", False)]
+    for inv, expect_ok in invs:
         try:
             p = subprocess.run(["timeout", "120", APALACHE, "check", "--init=Init", "--next=Next", "--inv=" + inv,
-                                "--length=0", "--out-dir=" + d, "--run-dir=" + os.path.join(d, inv), spec],
+                                "--length=0", "--out-dir=" + os.path.join(d, "out"), spec],
                                cwd=d, stdout=subprocess.PIPE, stderr=subprocess.STDOUT, text=True, timeout=150)
         except Exception as e:  # noqa
             return "not discharged (%s)" % type(e).__name__
@@ -31,20 +32,21 @@ def _apalache(ctx):
         cex = ("The outcome is: Error" in p.stdout)
         if not ok and not cex:
             return "not discharged (apalache exit %d)" % p.returncode
-        res[inv] = ok
         if ok != expect_ok:
             return "UNEXPECTED: %s %s" % (inv, "holds" if ok else "has a counterexample")
-    return "discharged for W=64 and W=32 (and the sign-test-only guard is refuted)"
+        ctx.log("apalache %s: %s" % (inv, "holds" if ok else "refuted (as expected)"))
+    return ("guard lemma discharged by Apalache for W=64 and W=32" +
+            ("" if ctx.quick else "; sign-test-only and MaxDiv10-only guards refuted"))
 
 
 def run(ctx):
     # (a) exhaustive small-word-width model
     runs = ctx.pick([(6, 9), (8, 4), (12, 4)], [(6, 9), (8, 9), (10, 9), (12, 9), (16, 5)])
     for w, maxlen in runs:
-        ctx.tlc_mc("data", "IntCodecMC", "IntCodecMC.cfg", consts={"W": w, "MAXLEN": maxlen}, workers=8, timeout=1500)
+        ctx.tlc_mc("data", "IntCodecMC", "IntCodecMC.cfg", consts={"W": w, "MAXLEN": maxlen}, workers=4, timeout=1500)
     # (c) boundary vectors at the real width
     path, _ = ctx.tlc_gen("data", "IntCodecGen", consts={"VECW": ctx.pick("{64}", "{32, 64}"), "DELTA": ctx.pick(9, 20)},
-                          workers=8, timeout=900)
+                          workers=4, timeout=900)
     if not path:
         raise Infra("IntCodecGen wrote no vectors")
     # one compilation, both tests (vectors + round trips)
@@ -53,10 +55,7 @@ def run(ctx):
         raise Infra("C30 harness: expected both tests to complete")
     ctx.absorb(recs)
     # (b) optional
-    if not ctx.quick:
-        ctx.extra["apalache_guard_lemma"] = _apalache(ctx)
-    else:
-        ctx.extra["apalache_guard_lemma"] = "not attempted in the quick tier"
+    ctx.extra["apalache_guard_lemma"] = _apalache(ctx)
     ctx.exhaustive = False
     ctx.extra["model_exhaustive_for_W"] = [w for w, m in runs if m >= 9]
     ctx.rule = ("vector = one boundary string for the native width; non-trivial = has at least maxSafeIntDigits "
